@@ -114,6 +114,19 @@ Theorem C13_read_eof_mid_frame : forall dec r n cap n1,
 Proof. exact c13_read_eof_mid_frame. Qed.
 Print Assumptions C13_read_eof_mid_frame.
 
+(* bad_frame_rejected (single-call form of tamper detection, no assumption on the AEAD): a complete
+   frame whose ciphertext does not decrypt under the current nonce (= the number of frames accepted so
+   far) is rejected in the same call with InvalidData: nothing is delivered, the transport is not
+   touched, the nonce does not advance and the frame is not skipped (C13_decrypt_error_sticky then
+   makes the failure permanent) *)
+Theorem C13_bad_frame_rejected : forall dec r n cap L,
+  buf_len (r_payload r) = 0 -> frame_complete (r_frame r) = Ok (Some L) ->
+  dec (length (r_got r)) (firstn L (skipn LENF (buf_as_slice (r_frame r)))) = None ->
+  exists r', poll_read dec r n cap = Ok (r', n, PErr EInvalidData) /\
+    r_got r' = r_got r /\ r_frame r' = r_frame r /\ b_data (r_payload r') = [].
+Proof. exact c13_bad_frame_rejected. Qed.
+Print Assumptions C13_bad_frame_rejected.
+
 (* the constants of stream.rs are an instance *)
 Theorem C13_real_constants : pc_ok MAX_PAYLOAD_LEN /\ FC MAX_PAYLOAD_LEN = MAX_PAYLOAD_LEN + 18.
 Proof. split; [exact real_pc_ok|exact (FC_val MAX_PAYLOAD_LEN (proj1 real_pc_ok))]. Qed.
